@@ -3,7 +3,7 @@ import c02 as base
 
 ID = "C03"
 PROPERTIES_V = ["theories/Properties/C03.v"]
-MAKE_TARGETS = ["theories/Properties/C03.vo", "theories/Model/C02Cases.vo", "theories/Model/C20Cases.vo"]
+MAKE_TARGETS = ["theories/Properties/C03.vo", "theories/Model/C02Cases.vo", "theories/Model/C20Cases.vo", "theories/Proofs/GenAgreeLimitCert.vo"]
 HARNESS = base.HARNESS
 CASES_IMPORTS = base.CASES_IMPORTS
 CASE_TYPE = base.CASE_TYPE
